@@ -28,11 +28,11 @@ RULE = (
     "array coming back as float) is not judged here - C05 judges kinds. Persistence of a definition is judged against a pinned list of names."
 )
 TOLERANCES = {"recomputed_rel": 1e-9}
-FLOORS = {"quick": {"workload.blueprints-state-assembly-parameters": 5, "op.assembly-state-after-blueprint-value": 10, "law.second-write-to-a-written-node": 2, "law.roundtrip-labelled-state-point": 4, "law.roundtrip-labelled-state-point/layout-differs-from-plain-node": 3, "law.roundtrip": 12, "law.load-twice": 12, "law.idempotent": 6, "law.roundtrip-later-node": 8, "nodes.compared": 3000,
+FLOORS = {"quick": {"law.resave-in-a-fresh-process": 3, "workload.blueprints-state-assembly-parameters": 5, "op.assembly-state-after-blueprint-value": 10, "law.second-write-to-a-written-node": 2, "law.roundtrip-labelled-state-point": 4, "law.roundtrip-labelled-state-point/layout-differs-from-plain-node": 3, "law.roundtrip": 12, "law.load-twice": 12, "law.idempotent": 6, "law.roundtrip-later-node": 8, "nodes.compared": 3000,
                     "law.roundtrip/thrz": 1, "history.third-core-with-edge-assemblies": 1, "loaded-tree.parent-links": 10000, "loaded-tree.core-lookups": 1500,
                     "persistence.definitions-pinned": 3000, "workload.nodefault-column-fully-assigned": 12,
                     "classify.recomputed-judged-against-original": 2500},
-          "thorough": {"workload.blueprints-state-assembly-parameters": 40, "op.assembly-state-after-blueprint-value": 80, "law.second-write-to-a-written-node": 40, "law.roundtrip-labelled-state-point": 60, "law.roundtrip-labelled-state-point/layout-differs-from-plain-node": 40, "law.roundtrip": 150, "law.load-twice": 150, "law.idempotent": 60, "law.roundtrip-later-node": 80, "nodes.compared": 60000,
+          "thorough": {"law.resave-in-a-fresh-process": 8, "workload.blueprints-state-assembly-parameters": 40, "op.assembly-state-after-blueprint-value": 80, "law.second-write-to-a-written-node": 40, "law.roundtrip-labelled-state-point": 60, "law.roundtrip-labelled-state-point/layout-differs-from-plain-node": 40, "law.roundtrip": 150, "law.load-twice": 150, "law.idempotent": 60, "law.roundtrip-later-node": 80, "nodes.compared": 60000,
                        "law.roundtrip/thrz": 4, "history.third-core-with-edge-assemblies": 8, "loaded-tree.parent-links": 100000, "loaded-tree.core-lookups": 15000,
                        "persistence.definitions-pinned": 5000, "workload.nodefault-column-fully-assigned": 150,
                        "classify.recomputed-judged-against-original": 25000}}
@@ -93,6 +93,69 @@ def run_shard(spec, rec):
         w["history"] = hist
         roundtrip(rec, rng, r, cs, bp, w, kind)
         rec.case([kind, sorted(set(h.split(":")[0] for h in hist)), len(hist)], sample=w if i == 0 else None)
+
+
+def fresh_process_resave(rec, db, inp, cyc, node, w):
+    import json
+    import subprocess
+    import sys
+
+    db.h5db.flush()
+    root = os.path.dirname(os.path.dirname(os.path.abspath(__file__)))
+    try:
+        p = subprocess.run([sys.executable, "-m", "checks.c04", "--fresh-resave", db._fullPath, inp, str(cyc), str(node)], cwd=root,
+                           stdout=subprocess.PIPE, stderr=subprocess.PIPE, timeout=600)
+    except subprocess.TimeoutExpired:
+        rec.skip("fresh-process re-save: child timed out")
+        return
+    line = [ln for ln in p.stdout.decode("utf8", "replace").splitlines() if ln.startswith("C04-FRESH ")]
+    if p.returncode != 0 or not line:
+        rec.violation("crash/fresh-process-resave", "a fresh process could not load, re-save and load again (exit %s): %s" % (p.returncode, p.stderr.decode("utf8", "replace")[-300:]), w)
+        return
+    out = json.loads(line[-1][len("C04-FRESH "):])
+    rec.hit("law.resave-in-a-fresh-process")
+    rec.hit("nodes.compared-in-a-fresh-process", out["nodes"])
+    for k, m in out["diffs"][:5]:
+        rec.violation("resave-in-a-fresh-process/" + k, "loaded in a fresh process, saved under the next node and loaded again: " + m, dict(w, which="fresh process"))
+
+
+def _fresh_resave_main(argv):
+    """Child process: load <db> at (cycle, node) with the input's settings and blueprints, save the loaded reactor under node+7 in a new
+    file, load that, and print the observational differences between the two loaded reactors."""
+    import json
+    import sys
+
+    path, inp, cyc, node = argv[0], argv[1], int(argv[2]), int(argv[3])
+    from vlib import env
+
+    env.setup(True)
+    from armi import settings
+    from armi.bookkeeping.db.database import Database
+    from armi.reactor import blueprints
+    from armi.tests import TEST_ROOT
+    from vlib import obs
+    from vlib.env import quiet
+
+    cs = settings.Settings(fName=os.path.join(TEST_ROOT, inp))
+    with quiet():
+        bp = blueprints.loadFromCs(cs)
+        src = Database(path, "r")
+        src.open()
+        r1 = src.load(cyc, node, cs=cs, bp=bp)
+        src.close()
+        o1 = obs.obs(r1)
+        r1.p.timeNode = node + 7
+        out = Database("resaved.h5", "w")
+        out.open()
+        out.writeToDB(r1)
+        r2 = out.load(cyc, node + 7, cs=cs, bp=bp)
+        out.close()
+        o2 = obs.obs(r2)
+    d = [(k, m) for k, m in obs.diff(o1, o2, limit=40) if "timeNode" not in k and "timeNode" not in m[:60]]
+    sys.stdout.write("C04-FRESH " + json.dumps({"nodes": len(o1), "diffs": d[:10]}) + "\n")
+    sys.stdout.flush()
+    env._cleanup()
+    os._exit(0)
 
 
 def load_repo(inp):
@@ -765,6 +828,10 @@ def roundtrip(rec, rng, r, cs, bp, w, kind):
                 compare(rec, oS, obs.obs(rS), ctxS, "roundtrip/", dict(w, did=did, which="state point %r of the same cycle and node" % lab), limit=200)
                 rP = db.load(cyc, node, cs=cs, bp=bp)
                 compare(rec, o0b, obs.obs(rP), ctx, "roundtrip/", dict(w, did=did, which="plain node, after state point %r was written beside it" % lab), limit=200)
+            if isinstance(w.get("reactor"), str) and (w.get("case") == 0 or rng.random() < .4):
+                # the restart / post-processing route: another process, which never assigned any of these parameters itself, loads the
+                # snapshot, saves what it loaded and loads that again - equal states (flags kept per process must not decide what is written)
+                fresh_process_resave(rec, db, w["reactor"], cyc, node, w)
             if rng.random() < .35:
                 # a second write to the node that is already in the file, after two assemblies were exchanged: refused (the file keeps the
                 # first state) or accepted (the file then holds the second state) - never layout of one and parameters of the other
@@ -864,3 +931,10 @@ def roundtrip(rec, rng, r, cs, bp, w, kind):
                 pass
     except Exception as e:
         rec.crash("roundtrip/" + kind, e, w)
+
+
+if __name__ == "__main__":
+    import sys as _sys
+
+    if len(_sys.argv) > 1 and _sys.argv[1] == "--fresh-resave":
+        _fresh_resave_main(_sys.argv[2:])
